@@ -6175,6 +6175,18 @@ class SSHServerConnection(SSHConnection):
             return await self._validate_openssh_certificate(
                 username, cast(SSHOpenSSHCertificate, cert))
 
+    async def _finish_userauth(self, begin_auth: bool, method: bytes,
+                               packet: SSHPacket) -> None:
+        """Finish processing a user authentication request"""
+
+        # Only options of the credential presented in this request should
+        # apply if it succeeds, not those of a key or certificate looked
+        # up by an earlier query or failed attempt
+        self._key_options = {}
+        self._cert_options = None
+
+        await super()._finish_userauth(begin_auth, method, packet)
+
     async def _validate_client_public_key(self, username: str,
                                           key_data: bytes) -> Optional[SSHKey]:
         """Validate a client public key for the specified user"""
